@@ -32,7 +32,8 @@ func vBreakout(ctx int, forTag bool) string {
 }
 
 // vAttrSep: separator between the previous construct and an attribute name. shape 0: one HTML whitespace byte,
-// 1: '/', 2: nothing (only valid directly after a closing quote: contexts 2..4), 3: two whitespace bytes.
+// 1: '/', 2: nothing (only valid directly after a closing quote: contexts 2..4), 3: two whitespace bytes,
+// 4: ws / ws, 5: / ws, 6: ws b=c ws / ws (a '/' after an earlier attribute value), 7: ws b='c'/ ws, 8: //, 9: ws NUL.
 func vAttrSep(shape int) string {
 	switch shape {
 	case 0:
@@ -41,6 +42,18 @@ func vAttrSep(shape int) string {
 		return "/"
 	case 3:
 		return vB(vH5WS()) + vB(vH5WS())
+	case 4:
+		return vB(vH5WS()) + "/" + vB(vH5WS())
+	case 5:
+		return "/" + vB(vH5WS())
+	case 6:
+		return vB(vH5WS()) + "b=c" + vB(vH5WS()) + "/" + vB(vH5WS())
+	case 7:
+		return vB(vH5WS()) + "b='c'/" + vB(vH5WS())
+	case 8:
+		return "//"
+	case 9:
+		return vB(vH5WS()) + "\x00"
 	}
 	return ""
 }
